@@ -301,6 +301,59 @@ def nondet_scan(repo, funcs):
     return sorted(set(out))
 
 
+def atomic_write_scan(repo, qualname="prov.model.ProvDocument.serialize"):
+    """the write-to-path protocol of ProvDocument.serialize, checked on its AST (C17):
+    R1 the serializer writes to a stream opened (os.fdopen) on a tempfile.mkstemp() file;
+    R2 the only calls that receive the destination (names path / location / destination) are urlparse(location)
+       and the final shutil.move(name, path) / shutil.copy(name, path) - nothing else opens, removes, renames or
+       rewrites the destination;
+    R3 `path` is only assigned by unpacking urlparse(location) and by `path = location`;
+    R4 the function never calls open().
+    -> list of (rule, line, text) that break a rule"""
+    fi = repo.funcs.get(qualname)
+    if fi is None:
+        return [("R0", 0, "function %s not found" % qualname)]
+    bad = []
+    dest_names = {"path", "location", "destination"}
+    has_mkstemp = has_fdopen = has_move = False
+    for n in ast.walk(fi.node):
+        if isinstance(n, ast.Call):
+            fn = ast.unparse(n.func)
+            argnames = {a.id for a in n.args if isinstance(a, ast.Name)} | {kw.value.id for kw in n.keywords if isinstance(kw.value, ast.Name)}
+            inner = {x.id for a in n.args for x in ast.walk(a) if isinstance(x, ast.Name)} | {x.id for kw in n.keywords for x in ast.walk(kw.value) if isinstance(x, ast.Name)}
+            if fn == "tempfile.mkstemp":
+                has_mkstemp = True
+            if fn == "os.fdopen":
+                has_fdopen = True
+            if fn in ("open", "io.open", "builtins.open"):
+                bad.append(("R4", n.lineno, ast.unparse(n)[:100]))
+            if inner & dest_names:
+                ok = (fn == "urlparse" and argnames <= {"location"}) \
+                    or (fn in ("shutil.move", "shutil.copy") and len(n.args) == 2 and isinstance(n.args[1], ast.Name) and n.args[1].id == "path"
+                        and isinstance(n.args[0], ast.Name) and n.args[0].id == "name") \
+                    or (fn == "hasattr" and argnames <= {"destination"}) \
+                    or fn.startswith("os.path.") or fn in ("print", "isinstance", "str", "os.fspath", "len")      # read-only uses
+                if fn in ("shutil.move", "shutil.copy") and ok:
+                    has_move = True
+                if not ok:
+                    bad.append(("R2", n.lineno, ast.unparse(n)[:100]))
+        if isinstance(n, ast.Assign):
+            for t in n.targets:
+                names = [x.id for x in ast.walk(t) if isinstance(x, ast.Name)]
+                if "path" in names:
+                    v = ast.unparse(n.value)
+                    if not (v == "urlparse(location)" or (v == "location" and names == ["path"])):
+                        bad.append(("R3", n.lineno, ast.unparse(n)[:100]))
+    if not (has_mkstemp and has_fdopen and has_move):
+        bad.append(("R1", fi.node.lineno, "mkstemp/fdopen/move protocol not found (mkstemp=%s fdopen=%s move=%s)" % (has_mkstemp, has_fdopen, has_move)))
+    # a removal of anything but the temporary file
+    for n in ast.walk(fi.node):
+        if isinstance(n, ast.Call) and ast.unparse(n.func) in ("os.remove", "os.unlink", "os.rename", "os.replace"):
+            if not (len(n.args) == 1 and isinstance(n.args[0], ast.Name) and n.args[0].id == "name"):
+                bad.append(("R2", n.lineno, ast.unparse(n)[:100]))
+    return sorted(set(bad))
+
+
 # PROV-DM / PROV-N / PROV-JSON names, written out from the specifications (not read from the library)
 SPEC_KINDS = {
     "Entity": "entity", "Activity": "activity", "Agent": "agent", "Generation": "wasGeneratedBy", "Usage": "used",
@@ -370,6 +423,11 @@ def run_scans(repo, spec):
         extra_nd = [x for x in nd if (x[0], x[2]) not in allowed_nd]
         res.append({"name": "scan:export-determinism", "ok": not extra_nd, "found": nd,
                     "detail": "calls of id/hash/random/time/uuid in export-reachable code: %s%s" % (nd, ("; NOT among the recorded ones: %s" % extra_nd) if extra_nd else "")})
+    if spec.get("atomic_write"):
+        bad = atomic_write_scan(repo)
+        res.append({"name": "scan:atomic-write", "ok": not bad, "found": bad,
+                    "detail": "ProvDocument.serialize: serializer output goes to a mkstemp() file, the destination is touched only by the final shutil.move/copy, path is the given file name%s" % (
+                        "; BROKEN: %s" % bad if bad else "")})
     if spec.get("spec_tables"):
         if repo.consts is None:
             repo._dump_consts()
